@@ -5,7 +5,7 @@ import glob, json, os, re, subprocess, sys
 d = sys.argv[1]
 MAP = [('tarpc/src/client', ['C01', 'C03']), ('tarpc/src/server/limits/channels_per_key.rs', ['C13']), ('tarpc/src/server/request_hook', ['C19']),
        ('tarpc/src/server', ['C08', 'C12']), ('tarpc/src/context.rs', ['C07']), ('tarpc/src/util/serde.rs', ['C15']), ('tarpc/src/util.rs', ['C16', 'C11']),
-       ('tarpc/src/trace.rs', ['C18']), ('tarpc/src/client/stub', ['C20']),
+       ('tarpc/src/trace.rs', ['C18']), ('tarpc/src/client/stub', ['C20']), ('tarpc/src/cancellations.rs', ['C03']), ('tarpc/src/client/in_flight_requests.rs', ['C01', 'C09']), ('tarpc/src/client.rs', ['C01', 'C09']),
        ('tarpc/src/transport', ['C15']), ('tarpc/src/serde_transport.rs', ['C15']), ('tarpc/src/server/limits/requests_per_channel.rs', ['C12', 'C14']),
        ('tarpc/src/server/in_flight_requests.rs', ['C08', 'C11'])]
 def sh(c, cwd=None):
